@@ -42,6 +42,7 @@ THEOREMS = [
     "PV.C14.toPython_kwonly_order_partial",
     "PV.C14.toPython_kwonly_order_fails",
     "PV.C14.splitKwonly_spec",
+    "PV.C14.defaults_spec",
     "PV.C14.intoArguments_none_iff",
     "PV.C14.intoArguments_no_underflow",
     "PV.C14.toPython_no_underflow",
@@ -56,11 +57,12 @@ THEOREMS = [
     "PV.C14.Fixed.toPython_denotes",
     "PV.C14.Fixed.positional_unchanged",
     "PV.C14.Fixed.intoArguments_no_underflow",
+    "PV.C14.Fixed.defaults_eq",
 ]
 TRUSTED = [
     "Lean 4.33.0 kernel; axioms limited to propext, Classical.choice, Quot.sound",
     "hand-written model lean/PV/C14/Model.lean of ast/src/generic.rs (to_python_arguments, into_python_arguments, "
-    "split_kwonlyargs, into_arguments, ArgWithDefault::from_arg/to_arg/into_arg), tied to the code by the "
+    "split_kwonlyargs, defaults, into_arguments, ArgWithDefault::from_arg/as_arg/to_arg/into_arg), tied to the code by the "
     "correspondence streams of this run (exhaustive over all shapes with <= 3 parameters per kind)",
     "a parameter is modelled as (name id, optional annotation id, optional default id); range and type_comment travel "
     "inside the moved/cloned Arg value and are not observed",
@@ -81,7 +83,7 @@ PARTIAL = [
     "about the proposed code, not the code in /repo, until the fix is applied and Model.lean is switched",
 ]
 if FIX_APPLIED:
-    THEOREMS = _FIXED_THEOREMS + ["PV.C14.splitKwonly_spec"]
+    THEOREMS = _FIXED_THEOREMS + ["PV.C14.splitKwonly_spec", "PV.C14.defaults_spec"]
     PARTIAL = _PARTIAL_IF_FIXED
 READY = True
 TECHNIQUE = ("Lean 4 theorems over a hand-written list-level model of the conversion functions + exhaustive small-scope "
@@ -243,6 +245,11 @@ def _judge_topy(req, out):
     nd, _, wd = f["split"].partition("/")
     if srt(_plist(nd)) != srt(nodef) or srt(_plist(wd)) != srt([p for p in a["kwonly"] if p[2] is not None]):
         fails.append(f"[split] split_kwonlyargs({f['in']}) = {f['split']}")
+    want = [x[2] for x in a["posonly"] + a["args"] if x[2] is not None]
+    got = None if f.get("defs") in (None, "none") else ([] if f["defs"] == "-" else f["defs"].split(","))
+    if got != want:
+        fails.append(f"[defaults-iter] Arguments::defaults() of {f['in']} = {f.get('defs')}, expected the defaults of the "
+                     f"positional-only then the positional parameters: {','.join(want) or '-'}")
     return fails
 
 
